@@ -180,7 +180,7 @@ def main(argv=None):
                        % (prop, ' && lake env leanchecker Sparrow.Props.' + prop if tier == 'thorough' else ''),
         'trusted_base': ['Lean 4.33.0 kernel', 'Mathlib v4.33.0 (kernel-checked library)',
                          'axioms: ' + ', '.join(proof.get('axioms_used', []) or ['none']),
-                         'translator harness/translate (AST patterns -> Generated/*.lean)',
+                         'translator harness/translate (AST rules -> Generated/*.lean; for bake_geometry, the setters, the brdf constructors, get_directivity and the two visibility scans: recognisers = recorded normal forms + fixed Lean text); opaque in the translated glue: _point_in_polygon, patch2patch_ff_universal, _rotate_coords_to_normal, pyfar arithmetic and nearest-point query',
                          'correspondence check (differential, finite sample) between Lean model at Float and /repo',
                          'real-number semantics of the theorems vs float64 of the code'],
         'theorems': proof.get('theorems', []),
